@@ -3,6 +3,7 @@
 package services
 
 import (
+	"go.6river.tech/mmmbbb/actions"
 	"go.6river.tech/mmmbbb/ent"
 	"go.6river.tech/mmmbbb/grpc/pubsubpb"
 )
@@ -17,4 +18,20 @@ func NewPublisherServerForVerif(client *ent.Client) pubsubpb.PublisherServer {
 // so that a verification harness can call the handlers in-process.
 func NewSubscriberServerForVerif(client *ent.Client) pubsubpb.SubscriberServer {
 	return &subscriberServer{client: client}
+}
+
+// PruneActionForVerif builds the action that the registered maintenance
+// service of the given name runs (nil if no such service is registered), so
+// that a verification harness exercises the deployed wiring rather than the
+// action constructors directly.
+func PruneActionForVerif(
+	name string,
+	params actions.PruneCommonParams,
+) actions.Action[actions.PruneCommonParams, actions.PruneCommonResults] {
+	for _, s := range defaultServices {
+		if ps, ok := s.(*pruneService); ok && ps.name == name {
+			return ps.actionbuilder(params)
+		}
+	}
+	return nil
 }
